@@ -247,6 +247,54 @@ def rule_decode(ck, facts, lang, em, reg):
         unreg = [nm for nm in names if nm not in reg]
         if hit:
             ck.ok(R, "form|%s" % v, {"form": v, "emits": sorted(names), "rebuilt_by": hit[:3]})
+            # (no-bypass) a child that was translated is wrapped again: no path of the arm runs the translation on a
+            # child and then returns without passing an emission (it would hand the child's code back in place of the
+            # node's — e.g. a quoted block without its block when the body does not start with a binding)
+            emit_fns = {g.path for sites in em.values() for g, _, _ in sites} | {g.root for sites in em.values() for g, _, _ in sites}
+            site_terms = [t for sites in em.values() for g, t, _ in sites if g.path == f.path]
+            E = set()
+            for b in region:
+                t = f.term(b)
+                if t[KIND] != "call":
+                    continue
+                c = callee(t) or ""
+                if any(t is st for st in site_terms) or (c in emit_fns and c not in stop) or (c in par and c not in stop and set(cg.reach([c], stop=lambda p: p in stop or STAGING not in p)) & emit_fns):
+                    E.add(b)
+            recs = [b for b in region if f.term(b)[KIND] == "call" and (callee(f.term(b)) or "") == f.path]
+            bypass = None
+            for rb in recs:
+                seen_b = set()
+                work = [x for x in f.succs(rb) if x in region]
+                while work and bypass is None:
+                    x = work.pop()
+                    if x in seen_b or x in E or x == cov.primary.block:
+                        continue
+                    seen_b.add(x)
+                    if f.term(x)[KIND] == "return":
+                        bypass = rb
+                        break
+                    work.extend(y for y in f.succs(x) if y in region or f.term(y)[KIND] == "return")
+                if bypass is not None:
+                    # an optional child that is absent (`Then(e, None)` is `e`) is decided on the payload's own Option;
+                    # what is reported is a decision taken by looking at the *form* of a child (a switch on an `Expr`)
+                    _di = DefIndex(f)
+                    shape = False
+                    before = {x for x in region if x != cov.primary.block and rb in reachable(f, x, stop=[cov.primary.block])}
+                    for x in seen_b | {rb} | before:
+                        t2 = f.term(x)
+                        if t2[KIND] == "switch" and t2[4][0] in ("cp", "mv"):
+                            r2 = _di.resolve(t2[4])
+                            if r2[0] == "rv" and r2[1][5][0] == "disc" and "ast::Expr" in f.local_ty(r2[1][5][1][0]) and "Option" not in f.local_ty(r2[1][5][1][0]) and r2[1][5][1][0] != cov.primary.place[0]:
+                                shape = True
+                    if not shape:
+                        bypass = None
+                        continue
+                    break
+            if recs:
+                if bypass is None:
+                    ck.ok(R, "no-bypass|%s" % v)
+                else:
+                    ck.bad(R, "no-bypass|%s" % v, "the arm of translate_code for Expr::%s translates a child and has a path that returns that result without wrapping it in the combinator that rebuilds the %s: for some shapes of the child the quoted node is replaced by its child (a quoted `{ .. }` loses its block, and the names bound in it leak into the code around the splice)" % (v, v), f.where(f.term(bypass)))
         elif unreg and all(nm not in reg for nm in names):
             # already reported by C09.names
             ck.note("decode: form %s only emits unregistered combinators %s (reported by C09.names)" % (v, unreg))
